@@ -27,8 +27,8 @@ What is proved, for every input triple (every projective representation):
 
 Carried by theorems elsewhere (PP.Props.C16Hom.iso3_hom, PP.Props.C16Hom11.iso11_hom), not in this file: the homomorphism law `iso (P + Q) = iso P + iso Q` (with `+` the group
 law of `E'`, which has `a ≠ 0`).  The general fact (a non-constant morphism of elliptic curves
-preserving the identity is a homomorphism) is not in Mathlib, and a direct algebraic certificate
-for the degree-11 map is out of reach; this clause of C16 rests on differential testing only.
+preserving the identity is a homomorphism) is not in Mathlib; both laws are proved by direct algebraic
+certificates (degree-11 map: evaluation of the chord identity on a 56 x 56 grid in the kernel).
 
 The `iso3` theorems take the field structure of `Fq2` as an instance argument together with
 `Iso.Fq2FieldAgrees` (its `+ * 0 1 -` are the model's; `⟨rfl, rfl, rfl, rfl, rfl⟩` for a structure built
